@@ -628,13 +628,58 @@ func setProposerAny(m sdk.Msg, p string) {
 	}
 }
 
+// c19Requests2 is the structured part of the request-list clause: long histories of request lists that look like real
+// traffic (real validators and tokens, amounts relative to what is held: partial unlocks to just below a threshold,
+// dust, weights to zero and back, thresholds up and down) mixed with adversarial ones (unknown validators and tokens,
+// creates of existing validators), under absences and evidence. Whatever the history, FinalizeBlock must go through.
+func c19Requests2(c *vc.Ctx, idx int) {
+	if os.Getenv("VERIF_SANITIZER_BUILD") != "" {
+		c.Count("request_histories_left_to_the_plain_build", 1)
+		return
+	}
+	r := world.NewRand(c.Seed, "c19req", idx)
+	nv := 2 + r.Intn(4)
+	cfg := lockCfg{Label: "c19req", NVals: nv, MaxVals: int64(1 + r.Intn(nv+1)), Blocks: c.Pick(70, 160), Protect0: true, Adversarial: idx%2 == 0, JumpTime: idx%3 == 0, TargetPunished: idx%2 == 1, TimeEdges: true,
+		W: lockWeights{Create: 15, Lock: 45, Unlock: 50, Claim: 10, Grant: 5, Weight: 25, Threshold: 20, Absent: 25, Evidence: 8, DustLock: 20, BigUnlock: 15},
+		Params: func(p *lockingtypes.Params) {
+			p.UnlockDuration, p.ExitingDuration = 9*time.Second, 18*time.Second
+			p.SignedBlocksWindow, p.MaxMissedPerWindow = 6, 2
+			p.DowntimeJailDuration = 15 * time.Second
+		}}
+	h, err := newLockHist(c, cfg, idx)
+	if err != nil {
+		c.Inconclusive("setup: %v", err)
+		return
+	}
+	defer h.close()
+	h.crashFn = func(cr *world.ErrCrash) {
+		c.Violation("block processing failed on a request history: "+errClass(cr.Err.Error()), cr.Error(), h.replay())
+	}
+	for b := 0; b < cfg.Blocks && !h.failed; b++ {
+		if !h.step() {
+			break
+		}
+		c.Eval(1)
+		c.Count("request_history_blocks", 1)
+		c.Nontrivial("request history: block message ok=%v weights=%d thresholds=%d unlocks=%d", h.blk.BlockOK, len(h.ops.Reqs.Locking.UpdateWeights), len(h.ops.Reqs.Locking.UpdateThresholds), len(h.ops.unlocks))
+	}
+	c.Sample(map[string]any{"request_history": true, "validators": nv, "blocks": h.ch.Height, "last_ops": lastN(h.opsLog, 3)})
+}
+
 func init() {
 	vc.Register(&vc.Check{
 		ID: "C19", Title: "No input can crash the node or halt block processing; failures change nothing", Level: "exploration",
 		Rule: "one case = one history (22/70 blocks; fewer on sanitizer builds) in which every block carries up to 11 mutants of well-formed messages of every relayer/bridge type (corpus regenerated for the current state: all five voted kinds with valid quorums, deposits with a genuine SPV proof, finalisation, cancellation approval, acceptance, voter registration), mutated at protobuf level (bit flips, truncation, duplicated/deleted/emptied fields i.e. nil sub-messages, nested mutation, length prefix +-1, 32 KiB fields, odd-length byte fields such as bitmaps and keys, non-canonical varints, inserted bytes), decoded back and re-signed so that they reach the handlers; 3 byte-level mutants of whole transactions; a hostile execution-layer request list (random decodable requests with amounts up to 2^256-1, unknown validators/tokens, 255 typed requests, unknown type bytes, byte-mutated encodings); every fourth block a protobuf-mutated block message and, whenever hand-overs are due, eight structure-level variants of the payload's system transactions (locking or bridge hand-overs withheld, list shorter or longer than the declared count, everything withheld) through ProcessProposal, whose checks run in goroutines no recover() protects; " +
-			"all delivered through CheckTx, PrepareProposal, ProcessProposal and FinalizeBlock. Oracles: the worker process survives (exit status, no panic/fatal/sanitizer report; last input logged before delivery), FinalizeBlock never errors, and after every block all store hashes equal a twin that executed only what succeeded (failed transactions replaced by sequence-neutral fillers). Runs on the plain, -race (checkptr) and -asan builds. Non-trivial = a mutant that still decodes as a message and reaches FinalizeBlock; distinct = (message type, operator, verdict).",
+			"all delivered through CheckTx, PrepareProposal, ProcessProposal and FinalizeBlock; plus 12/120 request histories (70/160 blocks, plain build) of structured request lists - real validators and tokens, partial unlocks to just below a threshold, dust, weights to zero and back, threshold changes, mixed with unknown validators/tokens - under absences and evidence, where FinalizeBlock must never fail. Oracles: the worker process survives (exit status, no panic/fatal/sanitizer report; last input logged before delivery), FinalizeBlock never errors, and after every block all store hashes equal a twin that executed only what succeeded (failed transactions replaced by sequence-neutral fillers). Runs on the plain, -race (checkptr) and -asan builds. Non-trivial = a mutant that still decodes as a message and reaches FinalizeBlock; distinct = (message type, operator, verdict).",
 		Assume: []string{"block-level failures of the block message caused by hostile request lists are allowed (the message fails, the block is processed)", "mutants are reached only as far as they still decode"},
-		Cases:  func(tier string) int { return map[string]int{"quick": 8, "thorough": 64}[tier] },
-		Run:    func(c *vc.Ctx, i int) { c19Case(c, i) },
+		Cases:  func(tier string) int { return map[string]int{"quick": 8 + 12, "thorough": 64 + 120}[tier] },
+		Run: func(c *vc.Ctx, i int) {
+			nMut := map[string]int{"quick": 8, "thorough": 64}[c.Tier]
+			if i < nMut {
+				c19Case(c, i)
+			} else {
+				c19Requests2(c, i-nMut)
+			}
+		},
 	})
 }
